@@ -106,8 +106,8 @@ EXTRA = {
  "C08": "Added: C08_single_write, C08_terminal, C08_prechecks (delivery, terminal switch and pre-chain checks derived from the statement facts of sendBackResponse / ssoHandleFunc).",
  "C10": "Added: C10_response_key / C10_metadata_key / C10_key_guards_order (which answers of the key getters are accepted, from the guard statements of getResponseCert / getMetadataCert); the correspondence derives cert_ok / mkey_ok from the injected answer shape.",
  "C11": "Added: C11_schema (metadata struct tags vs the SAML metadata schema).",
- "C12": "Added: C12_built_response (the answer document's fields from the builder source), C12_schema.",
- "C13": "Added: C13_built_response, C13_delivery_from_source, C13_codec, C13_schema.",
+ "C12": "Added: the decode oracle as a function of the request body (aquery_of_doc: model of Unmarshal + projection), checked against DecodeAttributeQuery on every case; C12_built_response (the answer document's fields from the builder source), C12_schema.",
+ "C13": "Added: the decode oracle as a function of the request document (lreq_of_doc), checked against DecodeLogoutRequest on every case; C13_built_response, C13_delivery_from_source, C13_codec, C13_schema.",
  "C14": "Added: C14_oversized_not_accepted / C14_oversized_decode_fails (an oversized DEFLATE payload is never accepted by the SSO handler, with decode = InflateAndDecode + parser).",
  "C15": "Added: C15_sso_program / C15_concurrent_sso (the SSO handler as a program over atomic storage operations; N concurrent SSO requests under every schedule are answered as alone on the initial storage and never share a stored request), C15_id_legal (NewID() values are legal xs:ID), C15_callbacks_among_sso (callbacks for requests that existed before the run are isolated among concurrently creating SSO threads).",
  "C16": "Added: C16_member without hypothesis; C16_rule_any_metadata (exact rule for arbitrary registered metadata, entries with empty Location included).",
